@@ -714,8 +714,90 @@ def tecmp_replay(doc, inp, r, work, root, repo):
     doc['native'] = 'not-reproduced'; doc['replay_argv'] = [frames[0].hex()]
 tecmp_replay.optional_trace = True
 
+DECODER_DRIVER = r'''
+using namespace ASAM::CMP;
+// Reference decoder written from the property statements (C04 C05 C06 C17 C18) and the wire layout, independent of the library:
+// per endpoint one reassembly slot; unsegmented valid message -> close slot, deliver; invalid -> close, stop; first segment -> (re)open with the declared bytes, stop;
+// continuing segment -> accepted iff open, same version and type, counter = previous + 1 mod 2^16; last -> deliver and close; anything else -> close.
+struct RPkt { uint8_t ver; uint16_t dev; uint8_t stream; uint8_t mt; uint64_t ts; uint32_t id32; uint8_t flags; uint8_t pt; std::vector<uint8_t> bytes; };
+struct RSlot { uint8_t ver, mt; uint16_t seq; std::vector<uint8_t> buf; };
+#include <map>
+static std::map<std::pair<uint16_t, uint8_t>, RSlot> rslots;
+static unsigned be16(const uint8_t* p) { return (p[0] << 8) | p[1]; }
+static RPkt mkref(const uint8_t* m, size_t len, uint8_t ver, uint16_t dev, uint8_t stream, uint8_t mt) {
+  RPkt r; r.ver = ver; r.dev = dev; r.stream = stream; r.mt = mt; r.ts = 0; for (int i = 0; i < 8; ++i) r.ts = (r.ts << 8) | m[i];
+  r.id32 = ((uint32_t)m[8] << 24) | (m[9] << 16) | (m[10] << 8) | m[11]; r.flags = m[12]; r.pt = m[13]; r.bytes.assign(m + 16, m + 16 + len); return r; }
+static std::vector<RPkt> refdecode(const std::vector<uint8_t>& f) {
+  std::vector<RPkt> out; if (f.size() < 8 || f[0] == 0) return out;
+  uint16_t dev = be16(&f[2]); uint8_t stream = f[5], ver = f[0], mt = f[4]; uint16_t seq = be16(&f[6]); auto key = std::make_pair(dev, stream);
+  size_t off = 8;
+  while (off < f.size()) {
+    size_t rem = f.size() - off;
+    bool valid = rem >= 16 && be16(&f[off + 14]) <= rem - 16 && !(f[off + 12] & 0x40) && f[off + 13] != 0;
+    if (!valid) { rslots.erase(key); break; }
+    unsigned seg = (f[off + 12] >> 2) & 3; size_t len = be16(&f[off + 14]);
+    if (seg == 0) { rslots.erase(key); out.push_back(mkref(&f[off], len, ver, dev, stream, mt)); off += 16 + len; continue; }
+    if (seg == 1) { RSlot s{ver, mt, seq, std::vector<uint8_t>(f.begin() + off, f.begin() + off + 16 + len)}; rslots[key] = s; break; }
+    auto it = rslots.find(key);
+    if (it == rslots.end() || it->second.ver != ver || it->second.mt != mt || seq != (uint16_t)(it->second.seq + 1)) { rslots.erase(key); break; }
+    RSlot& s = it->second; s.buf.insert(s.buf.end(), f.begin() + off + 16, f.begin() + off + 16 + len); s.seq = seq;
+    if (seg == 3) { out.push_back(mkref(s.buf.data(), s.buf.size() - 16, s.ver, dev, stream, s.mt)); rslots.erase(key); }
+    break; }
+  return out; }
+static uint64_t S = 88172645463325252ull; static uint64_t rnd() { S ^= S << 13; S ^= S >> 7; S ^= S << 17; return S; }
+static void put16(std::vector<uint8_t>& v, size_t o, unsigned x) { v[o] = x >> 8; v[o + 1] = x & 0xff; }
+static void msg(std::vector<uint8_t>& f, unsigned seg, size_t len) { size_t o = f.size(); f.resize(o + 16 + len); for (size_t i = o; i < f.size(); ++i) f[i] = (uint8_t)rnd();
+  f[o + 12] = (uint8_t)((rnd() & 0x33) | (seg << 2)); if (rnd() % 24 == 0) f[o + 12] |= 0x40; f[o + 13] = (rnd() % 16) ? (uint8_t)(0xF0 | (rnd() & 7)) : 0; put16(f, o + 14, (unsigned)len); }
+int main(int argc, char** argv) {
+  long histories = argc > 1 ? atol(argv[1]) : 3000; int fails = 0;
+  for (long h = 0; h < histories && !fails; ++h) {
+    Decoder dec; rslots.clear();
+    struct Ep { uint16_t dev; uint8_t stream; uint16_t seq; int inseg; } eps[3] = {{(uint16_t)(rnd() % 4 ? 0x0101 : rnd()), 1, (uint16_t)(rnd() % 3 ? 65533 + rnd() % 3 : rnd()), 0}, {0x0001, (uint8_t)(rnd() % 2 ? 1 : 2), (uint16_t)rnd(), 0}, {(uint16_t)(0x0100 | (rnd() & 3)), (uint8_t)(rnd() & 3), (uint16_t)rnd(), 0}};
+    std::vector<std::vector<uint8_t>> sent;
+    for (int fno = 0; fno < 14 && !fails; ++fno) {
+      Ep& e = eps[rnd() % 3]; std::vector<uint8_t> f(8); f[0] = (rnd() % 12) ? 1 : (uint8_t)(1 + rnd() % 3); f[1] = 0; put16(f, 2, e.dev); f[4] = (rnd() % 10) ? 1 : (uint8_t)(rnd() % 2 ? 3 : 0xff); f[5] = e.stream;
+      unsigned act = rnd() % 16;
+      if (act == 0 && !sent.empty()) f = sent[rnd() % sent.size()];                       // duplicate / reordered old frame
+      else { if (act == 1) e.seq += 1 + rnd() % 3;                                          // a lost frame
+        put16(f, 6, e.seq); e.seq++;
+        if (e.inseg || rnd() % 3 == 0) { unsigned sg = e.inseg ? (rnd() % 3 ? 2 : 3) : 1; if (rnd() % 14 == 0) sg = rnd() % 4; msg(f, sg, rnd() % 60); e.inseg = (sg == 1 || sg == 2); if (rnd() % 3 == 0) for (int k = rnd() % 24; k > 0; --k) f.push_back((uint8_t)rnd()); }
+        else { int n = 1 + rnd() % 3; for (int m = 0; m < n; ++m) msg(f, 0, rnd() % 40); if (rnd() % 6 == 0) f.resize(f.size() + rnd() % 20, 0); }
+        if (rnd() % 12 == 0) f.resize(rnd() % (f.size() + 1)); if (rnd() % 20 == 0) { f.assign(28 + rnd() % 30, 0); for (size_t i = 1; i < f.size(); ++i) f[i] = (uint8_t)rnd(); } }
+      sent.push_back(f);
+      bool tecmp = !f.empty() && f[0] == 0 && f.size() >= 8;
+      auto got = dec.decode(f.empty() ? nullptr : f.data(), f.size()); auto exp = refdecode(f);
+      char where[96]; snprintf(where, sizeof where, "history %ld frame %d (%zu bytes)", h, fno, f.size());
+      if (!tecmp) {
+        if (got.size() != exp.size()) { printf("VIOLATED: %s: %zu packets delivered, %zu expected\n", where, got.size(), exp.size()); ++fails; }
+        for (size_t i = 0; i < got.size() && i < exp.size() && !fails; ++i) { const Packet& p = *got[i]; const RPkt& r = exp[i];
+          bool ok = p.getVersion() == r.ver && p.getDeviceId() == r.dev && p.getStreamId() == r.stream && p.getTimestamp() == r.ts && p.getPayloadLength() == r.bytes.size() &&
+                    (uint8_t)p.getPayload().getMessageType() == r.mt && p.getPayload().getRawPayloadType() == r.pt && (p.getCommonFlags() & ~0x0C) == (r.flags & ~0x0C) &&
+                    (r.mt != 1 || p.getInterfaceId() == r.id32) && ((r.mt != 3 && r.mt != 0xff) || p.getVendorId() == (r.id32 & 0xffff)) &&
+                    (r.bytes.empty() || memcmp(p.getPayload().getRawPayload(), r.bytes.data(), r.bytes.size()) == 0);
+          if (!ok) { printf("VIOLATED: %s: packet %zu differs from the wire / from the sent message (length %u vs %zu, device %u vs %u, stream %u vs %u)\n", where, i, p.getPayloadLength(), r.bytes.size(), p.getDeviceId(), r.dev, p.getStreamId(), r.stream); ++fails; } } }
+      size_t pend = 0; for (auto& kv : dec.segmentedPackets) pend += kv.second.payload.size(); size_t rp = 0; for (auto& kv : rslots) rp += kv.second.buf.size();
+      if (!fails && (dec.segmentedPackets.size() != rslots.size() || pend != rp)) { printf("VIOLATED: %s: decoder holds %zu pending entries / %zu bytes, reference %zu / %zu\n", where, dec.segmentedPackets.size(), pend, rslots.size(), rp); ++fails; }
+      if (fails) { printf("history so far (hex):\n"); for (auto& x : sent) hex(x.data(), x.size()); } } }
+  printf("violations=%d\n", fails); return fails ? 3 : 0; }
+'''
+
+def decoder_replay(doc, inp, r, work, root, repo):
+    """decoder obligations (C02 C04 C05 C06 C17 C18): the verifier's one-step counterexample starts from an arbitrary reassembly slot, which is not an API input;
+    the driver searches frame histories natively instead - three endpoints (two of which collide under a sloppy key), segmented / unsegmented / faulty / truncated /
+    padded frames, counters across the wrap - against a reference decoder written from the property statements (ASan + UBSan build)"""
+    code = PRE + DECODER_DRIVER
+    exe = build_driver(work, repo, 'drv_decoder', code)
+    doc['native_expected'] = 'violations=0 (reference reassembly automaton, per-endpoint pending state, sanitizers)'
+    doc['native_call'] = 'decoder history search: 4000 random histories of 14 frames over 3 endpoints'; doc['replay_driver'] = code; doc['replay_argv'] = ['4000']
+    p = subprocess.run([exe, '4000'], stdout=subprocess.PIPE, stderr=subprocess.PIPE, timeout=900, env=dict(os.environ, ASAN_OPTIONS='detect_leaks=0'))
+    if p.returncode != 0:
+        doc['native_observed'] = p.stdout.decode()[-2500:]; doc['native_stderr'] = san_summary(p.stderr.decode()) if p.stderr else ''; doc['native'] = 'reproduced'; return
+    doc['native'] = 'not-reproduced'; doc['native_observed'] = p.stdout.decode()[-200:]
+decoder_replay.history_search = True
+
 def family_of(r, root):
     name = r['name']
+    if name in ('h_Decoder_decode', 'h_Endpoint_op_eq', 'h_EndpointHash', 'h_SegmentedPacket_make', 'h_SegmentedPacket_getPacket'): return decoder_replay
     if name.startswith('h_TECMP_'): return tecmp_replay
     if name.startswith(('h_Status_', 'h_DeviceStatus_', 'h_InterfaceStatus_')): return status_replay
     if name.startswith(('h_Payload_op_eq', 'h_TECMP_Payload_op_eq', 'h_Packet_op_eq', 'h_Packet_op_ne', 'h_Packet_copy_assign', 'h_Packet_self_assign')): return value_replay
